@@ -403,7 +403,7 @@ func (c02) Gen(rng *rand.Rand, tier string, idx int) Case {
 	default: // session with lateness
 		timeout := []int64{10, 1000, 3}[rng.Intn(3)]
 		ooo := []int64{0, timeout / 2, timeout, 3 * timeout}[rng.Intn(4)]
-		late := []int64{0, 1, timeout, 5 * timeout}[rng.Intn(4)]
+		late := []int64{0, 1, timeout, 5 * timeout, 40 * timeout}[rng.Intn(5)]
 		keys := [][]string{{"a"}, {"a", "b"}}[rng.Intn(2)]
 		c.Cfg = [][]string{{"kind", "session"}, {"mode", "et"}, {"timeout", itoa(timeout)}, {"ooo", itoa(ooo)}, {"late", itoa(late)}, {"groupby", "k"}, {"now", "0"}}
 		genSessionOps(rng, &c, timeout, ooo, keys, true)
